@@ -61,6 +61,10 @@ def gen_case(rng: random.Random, i: int) -> dict:
     return {"clock": clock, "strategy": "pause", "prog": prog, "cmds": [S.gen_repl(rng, clock), ["start"]]}
 
 
+TOKENS = {"tinyneg1": " (delay -1e-15)", "tinyneg2": " (delay -5e-324)", "tinyneg3": " (delay -2**-60)",
+          "tinypast": " (time = clock - max(1e-13, 4 ulp))", "nan": ""}
+
+
 def illegal(mode, clock_q):
     if mode[0] == "now":
         return False
@@ -83,7 +87,7 @@ def oracle(case: dict, obs: dict):
     end = None
     for ent in obs["log"]:      # an illegal request that got through shows up first
         if ent[0] == "sched" and ent[3] == "acc" and isinstance(ent[2], int) and illegal(ent[1], ent[2]):
-            return ("illegal-scheduling-accepted", f"request {ent[1]} at clock {ent[2]}/4 was accepted"), facts
+            return ("illegal-scheduling-accepted", f"request {ent[1]}{TOKENS.get(ent[1][1], '') if len(ent[1]) > 1 and isinstance(ent[1][1], str) else ''} at clock {ent[2]}/4 was accepted"), facts
     bad_clock = S.log_insane(obs)
     if bad_clock:
         return ("clock-not-an-exact-number", bad_clock), facts
@@ -103,7 +107,7 @@ def oracle(case: dict, obs: dict):
             if illegal(mode, clk):
                 facts["illegal"] = True
                 if outc != "ref":
-                    return ("illegal-scheduling-accepted", f"request {mode} at clock {clk}/4 was accepted"), facts
+                    return ("illegal-scheduling-accepted", f"request {mode}{TOKENS.get(mode[1], '') if len(mode) > 1 and isinstance(mode[1], str) else ''} at clock {clk}/4 was accepted"), facts
                 if s0 != s1:
                     return ("refused-scheduling-changed-pending", f"refused request {mode} changed the number of pending events {s0}->{s1}"), facts
             else:
